@@ -40,6 +40,7 @@ type engineImpl struct {
 	exitSnap  string           // copy of the data directory taken when Store.Exit was called
 	held      *litefs.GuardSet // internal write lock held by the `whold` op
 	abandoned []abandonedStore // stores of "dead" processes (crash restarts)
+	configure func(st *litefs.Store) error // cluster nodes: own leaser / client / HTTP server
 
 	// crash window
 	crashing   bool
@@ -183,11 +184,18 @@ func (m *engineImpl) openStore(role string) error {
 	}
 	st.Compress = m.c != nil && m.c.Flag("lz4")
 	st.OS = &crashOS{m: m}
+	if m.configure != nil {
+		if err := m.configure(st); err != nil {
+			return err
+		}
+	}
 	if err := st.Open(); err != nil {
 		return err
 	}
 	m.store = st
-	if role == "primary" {
+	if m.configure != nil {
+		// cluster node: roles are decided by the lease service, `sync` waits for them
+	} else if role == "primary" {
 		select {
 		case <-st.ReadyCh():
 		case <-time.After(5 * time.Second):
